@@ -256,6 +256,79 @@ def run(res, ctx):
                     i = next((j for j in range(min(len(text), len(ref[1]))) if text[j] != ref[1][j]), 0)
                     res.violation("two runs over the same inputs produced different machine-readable reports",
                                   {"format": fmt, "seeds": [ref[0], sd], "first_difference_at": i, "a": ref[1][max(0, i - 100):i + 100], "b": text[max(0, i - 100):i + 100]})
+        # names that differ only in letter case, in a combining mark, or not at all once lower-cased: every total order on file names must be independent of the
+        # hash seed (seeded change C08-m8 sorted with key=str.lower; ties kept the iteration order of a set)
+        ctree = os.path.join(scratch.root, "casetree")
+        for rel, body in (("pkg/Settings.py", "import pickle\n"), ("pkg/settings.py", "import subprocess\n"), ("pkg/SETTINGS.py", "assert x\n"), ("Lib/x.py", "exec(c)\n"),
+                          ("lib/x.py", "import telnetlib\n"), ("lib/X.py", "password = 'pw'\n"), ("a/B.py", "import pickle\n"), ("A/b.py", "import marshal\n"),
+                          ("z\u00e9.py", "assert y\n"), ("ze\u0301.py", "assert z\n"), ("Z\u00c9.py", "exec(d)\n")):
+            os.makedirs(os.path.dirname(os.path.join(ctree, rel)), exist_ok=True)
+            open(os.path.join(ctree, rel), "w").write(body)
+        for fmt in (FORMATS if thorough else ["json", "csv"]):
+            ref = None
+            for sd in ([0, 1, 2, 3, 4, 5, 6, 7, 8, 9, 10, 11] if thorough else [0, 1, 2, 3, 5, 8]):
+                out = os.path.join(scratch.root, f"case_{fmt}_{sd}")
+                rc, so, se = cli_subprocess(["-r", "casetree", "-f", fmt, "-o", out, "-q"], scratch.root, sd)
+                res.case(("hashseed-case-colliding-names", fmt, sd), True)
+                res.count("hashseed-case:" + fmt)
+                if not os.path.exists(out):
+                    res.violation("no report produced in a subprocess run", {"format": fmt, "seed": sd, "rc": rc, "stderr": se[-400:]})
+                    continue
+                text = strip_volatile(fmt, open(out, encoding="utf-8", errors="replace").read())
+                if ref is None:
+                    ref = (sd, text)
+                elif text != ref[1]:
+                    i = next((j for j in range(min(len(text), len(ref[1]))) if text[j] != ref[1][j]), 0)
+                    res.violation("two runs over the same inputs (file names equal up to letter case) produced different machine-readable reports",
+                                  {"format": fmt, "seeds": [ref[0], sd], "tree": "pkg/{Settings,settings,SETTINGS}.py Lib/x.py lib/{x,X}.py a/B.py A/b.py z\u00e9.py ze\u0301.py Z\u00c9.py",
+                                   "first_difference_at": i, "a": ref[1][max(0, i - 100):i + 100], "b": text[max(0, i - 100):i + 100]})
+                    break
+        # ---------------- (3b) several reports written in ONE process: what an earlier report contained must not show in a later one (seeded change C08-m7 kept SARIF
+        #      rule descriptors — whose precision / tags come from the first finding of the rule — in a module-level cache across reports)
+        pairs_ = [("cur.execute('SELECT a FROM t WHERE b = %s' % x)\nq = 'DELETE FROM t WHERE c = ' + y\n", "q = 'SELECT a FROM t WHERE b = %s' % x\ncur.execute('UPDATE t SET c = ' + y)\n"),
+                  ("import subprocess\nsubprocess.Popen('ls -l', shell=True)\nsubprocess.Popen(cmd, shell=True)\n", "import subprocess\nsubprocess.Popen(cmd, shell=True)\nsubprocess.Popen('ls', shell=True)\n"),
+                  ("import hashlib\nhashlib.md5(b)\nhashlib.new('md4')\npassword = 'x'\n", "import hashlib\nhashlib.new('sha1')\ntoken = 'y'\n")]
+        rdir = os.path.join(scratch.root, "reports_seq"); os.makedirs(rdir)
+        seq_files = []
+        for k, (a, b) in enumerate(pairs_):
+            for nm, body in ((f"s{k}_first.py", a), (f"s{k}_second.py", b)):
+                open(os.path.join(rdir, nm), "w").write(body)
+                seq_files.append(os.path.join(rdir, nm))
+
+        def report_of(path, fmt):
+            import linecache
+            linecache.clearcache()
+            m = b_manager.BanditManager(b_config.BanditConfig(), "file")
+            m.discover_files([path]); m.run_tests(); C.take_log()
+            outp = os.path.join(scratch.root, "seq_report.out")
+            m.output_results(3, "LOW", "LOW", open(outp, "w", encoding="utf-8"), fmt)
+            return strip_volatile(fmt, open(outp, encoding="utf-8").read())
+        avail = FORMATS
+        try:
+            import sarif_om, jschema_to_python  # noqa: F401
+        except ImportError:
+            avail = [f for f in FORMATS if f != "sarif"]
+        def pristine_report(job):
+            p_, fmt_ = job
+            outp = os.path.join(scratch.root, "pristine_%s_%s" % (os.path.basename(p_), fmt_))
+            rc, so, se = cli_subprocess(["-f", fmt_, "-o", outp, "-q", p_], rdir, 0)
+            return job, (strip_volatile(fmt_, open(outp, encoding="utf-8").read()) if os.path.exists(outp) else None)
+        with ThreadPoolExecutor(8) as ex:
+            pristine_reports = dict(ex.map(pristine_report, [(p_, f_) for p_ in seq_files for f_ in avail]))
+        for fmt in avail:
+            for order_label, order in (("as-listed", seq_files), ("reversed", list(reversed(seq_files)))):
+                for p in order:
+                    got = report_of(p, fmt)
+                    want = pristine_reports[(p, fmt)]
+                    res.case(("reports-in-one-process", fmt, order_label, os.path.basename(p)), True)
+                    res.count("report-sequence:" + fmt)
+                    if want is None:
+                        res.break_("pristine-report-failed", {"file": os.path.basename(p), "format": fmt})
+                    elif got != want:
+                        i = next((j for j in range(min(len(got), len(want))) if got[j] != want[j]), 0)
+                        res.violation("the report of one file depends on which reports were written earlier in the same process (it differs from the report a fresh interpreter writes)",
+                                      {"format": fmt, "file": os.path.basename(p), "program": open(p).read(), "reports_written_before": [os.path.basename(x) for x in order[:order.index(p)]],
+                                       "first_difference_at": i, "in_this_process": got[max(0, i - 150):i + 150], "fresh_interpreter": want[max(0, i - 150):i + 150]})
         # ---------------- (4) directory-entry order
         for order in ("asc", "desc"):
             droot = os.path.join(scratch.root, "ord_" + order); os.makedirs(droot)
